@@ -268,6 +268,22 @@ Section Rules.
     destruct lhs; try discriminate Hfn; ev_rw; step; ev_rw; reflexivity.
   Qed.
 
+  (* quirk 3: `x op = e` with x an identifier is an op-assignment *)
+  Lemma PL_opassign : forall p a k op ts r ts' R,
+    is_fix KSemi (TFix k) = false ->
+    prec_lt p (tok_prec k) = true ->
+    is_infix_token (TFix k) = true ->
+    operator_of (TFix k) = Some op ->
+    PE PLowest ts (Ok (r, ts')) ->
+    PL p (EAssign (EIdent a) (EInfix (EIdent a) op r)) ts' R ->
+    PL p (EIdent a) (TFix k :: TFix KAssign :: ts) R.
+  Proof.
+    intros p a k op ts r ts' R Hs Hlt Hin Hop H1 H2. unfold tok_prec in *. ev_start.
+    rewrite parse_loop_S. cbn [cur]. rewrite Hs, Hlt, Hin. cbn [negb andb].
+    rewrite parse_infix_expr_S. cbn [cur advance tl]. rewrite Hop. cbv zeta.
+    cbn [is_fix ftoken_eqb andb advance tl]. ev_rw. step. ev_rw. reflexivity.
+  Qed.
+
   Lemma PL_assign : forall p lhs ts r ts' R,
     prec_lt p (tok_prec KAssign) = true ->
     assign_target lhs = true ->
@@ -1172,6 +1188,10 @@ Section Main.
     exact (full_ok e p f rest (HE e Hwf) Hp Hf Hle).
   Qed.
 
+  (* name used in the work plan for the expression-only stage; the statement above already covers
+     every expression form *)
+  Definition parse_print_expr_A := parse_print_expr.
+
   Theorem parse_print_stmt : forall s rest, wf_stmt fok s = true ->
     exists n, forall fuel, (n <= fuel)%nat ->
       parse_statement pf fuel (print_stmt show_f s ++ rest) = Ok (s, rest).
@@ -1387,3 +1407,427 @@ Section Shapes.
                PLowest PLowest rest eq_refl p_ok_lowest Hf (le_n _)).
   Qed.
 End Shapes.
+
+(** * 9. Op-assignment is sugar *)
+
+Lemma infix_above_assign : forall o, is_infix_op o = true ->
+  prec_lt PAssign (tok_prec (infix_tok o)) = true /\ prec_lt PLowest (tok_prec (infix_tok o)) = true.
+Proof. intros o H. destruct o; try discriminate H; split; reflexivity. Qed.
+
+Section OpAssign.
+  Variable pf : text -> option float.
+  Variable show_f : float -> text.
+  Variable fok : float -> bool.
+  Hypothesis Hfok : forall x, fok x = true -> pf (show_f x) = Some x.
+
+  (* `a o= e`, `a = a o (e)` and the minimal printed form of the tree all denote
+     EAssign a (EInfix a o e), for every infix operator o and every tree e of the parser's image *)
+  Theorem op_assign_desugars : forall a o e rest,
+    is_infix_op o = true -> wf_expr fok e = true -> follow PLowest rest ->
+    let t := EAssign (EIdent a) (EInfix (EIdent a) o e) in
+    let pe := print_expr show_f PLowest PLowest e in
+    exists n, forall fuel, (n <= fuel)%nat ->
+      parse_expr pf fuel PLowest
+        (TIdent a :: TFix (infix_tok o) :: TFix KAssign :: pe ++ rest) = Ok (t, rest) /\
+      parse_expr pf fuel PLowest
+        (TIdent a :: TFix KAssign :: TIdent a :: TFix (infix_tok o) :: TFix KOpenParen :: pe
+         ++ TFix KCloseParen :: rest) = Ok (t, rest) /\
+      parse_expr pf fuel PLowest (print_expr show_f PLowest PLowest t ++ rest) = Ok (t, rest).
+  Proof.
+    intros a o e rest Ho Hwe Hf t pe.
+    destruct (infix_tok_spec o Ho) as (Kin & Kop & Ksemi & Kelse & Kpos & Kpok).
+    destruct (infix_above_assign o Ho) as [Kas Klow].
+    destruct (pratt_invariant pf show_f fok Hfok) as [HE _].
+    assert (Hstop : forall q x, PL pf q x rest (Ok (x, rest))).
+    { intros q x. apply PL_stop. destruct Hf as [_ Hf]. rewrite rank_lowest in Hf. lia. }
+    assert (H1 : PE pf PLowest (TIdent a :: TFix (infix_tok o) :: TFix KAssign :: pe ++ rest)
+                   (Ok (t, rest))).
+    { apply PE_ident.
+      eapply PL_opassign; [ exact Ksemi | exact Klow | exact Kin | exact Kop | | apply Hstop ].
+      apply full_ok; [ exact (HE e Hwe) | exact p_ok_lowest | exact Hf | lia ]. }
+    assert (H2 : PE pf PLowest
+                   (TIdent a :: TFix KAssign :: TIdent a :: TFix (infix_tok o) :: TFix KOpenParen :: pe
+                    ++ TFix KCloseParen :: rest) (Ok (t, rest))).
+    { apply PE_ident.
+      eapply PL_assign; [ reflexivity | reflexivity | | apply Hstop ].
+      apply PE_ident.
+      eapply PL_infix;
+        [ exact Ksemi | exact Kas | exact Kin | exact Kop | reflexivity | reflexivity | | apply Hstop ].
+      eapply PE_paren; [ | apply Hstop ].
+      apply full_low; [ exact (HE e Hwe) | reflexivity | reflexivity ]. }
+    assert (Hwt : wf_expr fok t = true).
+    { subst t. rewrite wf_assign, wf_infix. rewrite Ho, Hwe. reflexivity. }
+    assert (H3 : PE pf PLowest (print_expr show_f PLowest PLowest t ++ rest) (Ok (t, rest))).
+    { apply full_ok; [ exact (HE t Hwt) | exact p_ok_lowest | exact Hf | lia ]. }
+    destruct H1 as [n1 H1]. destruct H2 as [n2 H2]. destruct H3 as [n3 H3].
+    exists (n1 + n2 + n3)%nat. intros fuel Hle. repeat split.
+    - apply H1. lia.
+    - apply H2. lia.
+    - apply H3. lia.
+  Qed.
+End OpAssign.
+
+(** * 10. wf_tree is complete: everything the parser returns satisfies it *)
+
+Lemma infix_token_op : forall t o,
+  is_infix_token t = true -> operator_of t = Some o -> is_infix_op o = true.
+Proof.
+  intros t o Hi Ho. destruct t as [s | s | s | s | k]; try discriminate Hi.
+  destruct k; try discriminate Hi; vm_compute in Ho; injection Ho as Ho; subst o; reflexivity.
+Qed.
+
+Lemma int_literal_wf : forall fok s e, int_literal s = Ok e -> wf_expr fok e = true.
+Proof.
+  intros fok s e H. unfold int_literal in H.
+  destruct (parse_digits s 0) as [n | ]; [ | discriminate H ].
+  destruct (Z.of_N n <=? MAX_INT) eqn:E; [ | discriminate H ].
+  injection H as H. subst e. rewrite wf_int. rewrite E.
+  assert (H0 : (0 <=? Z.of_N n) = true) by (apply Z.leb_le; lia). rewrite H0. reflexivity.
+Qed.
+
+Section Complete.
+  Variable pf : text -> option float.
+
+  Definition ftrue : float -> bool := fun _ => true.
+  Definition Wp (e : expr) : Prop := wf_expr ftrue e = true.
+  Definition WLp (l : list expr) : Prop := forallb (wf_expr ftrue) l = true.
+  Definition WSp (s : stmt) : Prop := wf_stmt ftrue s = true.
+  Definition WBp (b : block) : Prop := forallb (wf_stmt ftrue) b = true.
+
+  Definition okp {A} (Pr : A -> Prop) (x : P A) : Prop :=
+    match x with Ok (a, _) => Pr a | _ => True end.
+
+  Lemma okp_bind : forall A B (P1 : A -> Prop) (P2 : B -> Prop) (x : P A) (k : A * list token -> P B),
+    okp P1 x -> (forall a ts, P1 a -> okp P2 (k (a, ts))) -> okp P2 (bind x k).
+  Proof.
+    intros A B P1 P2 x k Hx Hk. destruct x as [[a ts] | e | s | ]; cbn [bind okp] in *;
+      [ apply Hk; exact Hx | exact I | exact I | exact I ].
+  Qed.
+
+  Lemma okp_true : forall A (x : P A), okp (fun _ => True) x.
+  Proof. intros A x. destruct x as [[a ts] | e | s | ]; exact I. Qed.
+
+  Definition inv (n : nat) : Prop :=
+    (forall p ts, okp Wp (parse_expr pf n p ts)) /\
+    (forall p lhs ts, Wp lhs -> okp Wp (parse_loop pf n p lhs ts)) /\
+    (forall lhs ts, is_infix_token (cur ts) = true -> Wp lhs -> okp Wp (parse_infix_expr pf n lhs ts)) /\
+    (forall ts, cur ts = TFix KBang \/ cur ts = TFix KMinus -> okp Wp (parse_prefix_expr pf n ts)) /\
+    (forall ts, okp Wp (parse_if_expr pf n ts)) /\
+    (forall lhs ts, Wp lhs -> okp Wp (parse_assign_expr pf n lhs ts)) /\
+    (forall ts, okp Wp (parse_function_expr pf n ts)) /\
+    (forall lhs ts, Wp lhs -> okp Wp (parse_call_expr pf n lhs ts)) /\
+    (forall c ts, okp WLp (parse_list pf n c ts)) /\
+    (forall ts, okp Wp (parse_while_expr pf n ts)) /\
+    (forall ts, okp Wp (parse_array_expr pf n ts)) /\
+    (forall lhs ts, Wp lhs -> okp Wp (parse_index_expr pf n lhs ts)) /\
+    (forall ts, okp WSp (parse_statement pf n ts)) /\
+    (forall ts, okp WBp (parse_block_statement pf n ts)) /\
+    (forall ts, okp WBp (parse_block_items pf n ts)).
+
+  Lemma inv_zero : inv 0.
+  Proof. unfold inv. repeat split; intros; exact I. Qed.
+
+  Lemma inv_step : forall n, inv n -> inv (S n).
+  Proof.
+    intros n (IHe & IHl & IHi & IHp & IHif & IHa & IHf & IHc & IHli & IHw & IHar & IHix & IHs & IHb & IHbi).
+    unfold inv. repeat split.
+    - (* parse_expr *)
+      intros p ts. rewrite parse_expr_S.
+      eapply okp_bind; [ | intros lhs ts1 Hl; cbv beta iota; apply IHl; exact Hl ].
+      destruct (cur ts) as [s | s | s | s | k] eqn:Ec.
+      + reflexivity.
+      + destruct (int_literal s) as [e | | | ] eqn:E; cbn [bind okp]; try exact I.
+        exact (int_literal_wf ftrue s e E).
+      + unfold float_literal. destruct (pf s); cbn [bind okp]; [ reflexivity | exact I ].
+      + reflexivity.
+      + destruct k; try exact I; try reflexivity.
+        * apply IHif.
+        * apply IHf.
+        * apply IHw.
+        * eapply okp_bind; [ apply IHe | intros e ts' He; cbv beta iota ].
+          eapply okp_bind; [ apply okp_true | intros u ts'' _; destruct u; cbv beta iota; exact He ].
+        * apply IHar.
+        * apply IHp. left. exact Ec.
+        * apply IHp. right. exact Ec.
+    - (* parse_loop *)
+      intros p lhs ts Hl. rewrite parse_loop_S.
+      destruct (negb (is_fix KSemi (cur ts)) && prec_lt p (token_precedence (cur ts)));
+        [ | exact Hl ].
+      destruct (is_infix_token (cur ts)) eqn:Ei.
+      { eapply okp_bind; [ apply IHi; assumption | intros e ts' He; cbv beta iota; apply IHl; exact He ]. }
+      destruct (is_fix KAssign (cur ts)).
+      { eapply okp_bind; [ apply IHa; assumption | intros e ts' He; cbv beta iota; apply IHl; exact He ]. }
+      destruct (is_fix KOpenParen (cur ts)).
+      { eapply okp_bind; [ apply IHc; assumption | intros e ts' He; cbv beta iota; apply IHl; exact He ]. }
+      destruct (is_fix KOpenBracket (cur ts)).
+      { eapply okp_bind; [ apply IHix; assumption | intros e ts' He; cbv beta iota; apply IHl; exact He ]. }
+      exact Hl.
+    - (* parse_infix_expr *)
+      intros lhs ts Hi Hl. rewrite parse_infix_expr_S.
+      destruct (is_function lhs) eqn:Ef; [ destruct lhs; try discriminate Ef; exact I | ].
+      assert (Hbody : okp Wp
+                match operator_of (cur ts) with
+                | None => Fault FUnwrap
+                | Some op =>
+                    let p := token_precedence (cur ts) in
+                    let ts1 := advance ts in
+                    if is_fix KAssign (cur ts1) && match lhs with EIdent _ => true | _ => false end then
+                      do (rhs, ts2) <- parse_expr pf n PLowest (advance ts1);
+                      Ok (EAssign lhs (EInfix lhs op rhs), ts2)
+                    else
+                      do (rhs, ts2) <- parse_expr pf n p ts1;
+                      Ok (EInfix lhs op rhs, ts2)
+                end).
+      { destruct (operator_of (cur ts)) as [op | ] eqn:Eop; [ | exact I ].
+        pose proof (infix_token_op _ _ Hi Eop) as Hop. cbv zeta.
+        destruct (is_fix KAssign (cur (advance ts)) && match lhs with EIdent _ => true | _ => false end)
+          eqn:Ea.
+        - eapply okp_bind; [ apply IHe | intros rhs ts2 Hr; cbv beta iota; cbn [okp] ].
+          apply andb_true_iff in Ea. destruct Ea as [_ Ea].
+          destruct lhs; try discriminate Ea.
+          unfold Wp in *. rewrite wf_assign, wf_infix. rewrite Hop, Hr. reflexivity.
+        - eapply okp_bind; [ apply IHe | intros rhs ts2 Hr; cbv beta iota; cbn [okp] ].
+          unfold Wp in *. rewrite wf_infix. rewrite Hop, Ef, Hl, Hr. reflexivity. }
+      destruct lhs; try exact Hbody. discriminate Ef.
+    - (* parse_prefix_expr *)
+      intros ts Hc. rewrite parse_prefix_expr_S.
+      destruct Hc as [Hc | Hc]; rewrite Hc.
+      + change (operator_of (TFix KBang)) with (Some OpNot). cbv zeta.
+        eapply okp_bind; [ apply IHe | intros rhs ts' Hr; cbv beta iota; cbn [okp] ].
+        unfold Wp in *. rewrite wf_prefix, Hr. reflexivity.
+      + change (operator_of (TFix KMinus)) with (Some OpSubtract). cbv zeta.
+        eapply okp_bind; [ apply IHe | intros rhs ts' Hr; cbv beta iota; cbn [okp] ].
+        unfold Wp in *. rewrite wf_prefix, Hr. reflexivity.
+    - (* parse_if_expr *)
+      intros ts. rewrite parse_if_expr_S.
+      eapply okp_bind; [ apply IHe | intros c ts1 Hc; cbv beta iota ].
+      eapply okp_bind; [ apply IHb | intros t ts2 Ht; cbv beta iota ].
+      unfold Wp, WBp, WSp in *.
+      destruct (is_fix KElse (cur ts2)).
+      + cbv zeta. destruct (is_fix KIf (cur (advance ts2))).
+        * eapply okp_bind; [ apply IHs | intros s ts4 Hs; cbv beta iota; cbn [okp] ].
+          rewrite wf_if. cbn [forallb]. rewrite Hc, Ht, Hs. reflexivity.
+        * eapply okp_bind; [ apply IHb | intros a ts4 Ha; cbv beta iota; cbn [okp] ].
+          rewrite wf_if. rewrite Hc, Ht, Ha. reflexivity.
+      + cbn [okp]. rewrite wf_if. rewrite Hc, Ht. reflexivity.
+    - (* parse_assign_expr *)
+      intros lhs ts Hl. rewrite parse_assign_expr_S. unfold Wp in *.
+      destruct lhs; try exact I.
+      + eapply okp_bind; [ apply IHe | intros rhs ts' Hr; cbv beta iota; cbn [okp] ].
+        rewrite wf_assign. rewrite Hr. reflexivity.
+      + eapply okp_bind; [ apply IHe | intros rhs ts' Hr; cbv beta iota; cbn [okp] ].
+        rewrite wf_assign. rewrite Hl, Hr. reflexivity.
+    - (* parse_function_expr *)
+      intros ts. rewrite parse_function_expr_S. cbv zeta.
+      destruct (match cur (advance ts) with
+                | TIdent n0 => (n0, advance (advance ts))
+                | _ => ([], advance ts)
+                end) as [name ts2].
+      eapply okp_bind; [ apply okp_true | intros u ts3 _; cbv beta iota ].
+      destruct (parse_params pf n ts3) as [[params ts4] | | | ]; cbn [bind]; try exact I.
+      eapply okp_bind; [ apply okp_true | intros u' ts5 _; cbv beta iota ].
+      eapply okp_bind; [ apply IHb | intros body ts6 Hb; cbv beta iota; cbn [okp] ].
+      unfold Wp, WBp in *. rewrite wf_function. exact Hb.
+    - (* parse_call_expr *)
+      intros lhs ts Hl. rewrite parse_call_expr_S. unfold Wp, WLp in *.
+      destruct lhs; try exact I.
+      + eapply okp_bind; [ apply IHli | intros args ts' Ha; cbv beta iota; cbn [okp] ].
+        rewrite wf_call. unfold WLp in Ha. rewrite Ha. reflexivity.
+      + eapply okp_bind; [ apply IHli | intros args ts' Ha; cbv beta iota; cbn [okp] ].
+        rewrite wf_call. unfold WLp in Ha. rewrite Hl, Ha. reflexivity.
+    - (* parse_list *)
+      intros c ts. rewrite parse_list_S.
+      destruct (is_fix c (cur ts)); [ reflexivity | ].
+      eapply okp_bind; [ apply IHe | intros e ts1 He; cbv beta iota ].
+      eapply okp_bind; [ apply IHli | intros rest ts2 Hr; cbv beta iota; cbn [okp] ].
+      unfold Wp, WLp in *. cbn [forallb]. rewrite He, Hr. reflexivity.
+    - (* parse_while_expr *)
+      intros ts. rewrite parse_while_expr_S.
+      eapply okp_bind; [ apply IHe | intros c ts1 Hc; cbv beta iota ].
+      eapply okp_bind; [ apply IHb | intros b ts2 Hb; cbv beta iota; cbn [okp] ].
+      unfold Wp, WBp in *. rewrite wf_while. rewrite Hc, Hb. reflexivity.
+    - (* parse_array_expr *)
+      intros ts. rewrite parse_array_expr_S.
+      eapply okp_bind; [ apply IHli | intros vs ts1 Hv; cbv beta iota ].
+      eapply okp_bind; [ apply okp_true | intros u ts2 _; cbv beta iota; cbn [okp] ].
+      unfold Wp, WLp in *. rewrite wf_array. exact Hv.
+    - (* parse_index_expr *)
+      intros lhs ts Hl. rewrite parse_index_expr_S. unfold Wp in *.
+      destruct lhs; try exact I.
+      + eapply okp_bind; [ apply IHe | intros i ts1 Hi; cbv beta iota ].
+        eapply okp_bind; [ apply okp_true | intros u ts2 _; cbv beta iota; cbn [okp] ].
+        rewrite wf_index. unfold Wp in Hi. rewrite Hi. reflexivity.
+      + eapply okp_bind; [ apply IHe | intros i ts1 Hi; cbv beta iota ].
+        eapply okp_bind; [ apply okp_true | intros u ts2 _; cbv beta iota; cbn [okp] ].
+        rewrite wf_index. unfold Wp in Hi. rewrite Hi. reflexivity.
+      + eapply okp_bind; [ apply IHe | intros i ts1 Hi; cbv beta iota ].
+        eapply okp_bind; [ apply okp_true | intros u ts2 _; cbv beta iota; cbn [okp] ].
+        rewrite wf_index. unfold Wp in Hi. rewrite Hl, Hi. reflexivity.
+    - (* parse_statement *)
+      intros ts. rewrite parse_statement_S.
+      eapply okp_bind; [ | intros s ts' Hs; cbv beta iota; exact Hs ].
+      assert (Hdflt : okp WSp (do (e, ts1) <- parse_expr pf n PLowest ts; Ok (SExpr e, ts1))).
+      { eapply okp_bind; [ apply IHe | intros e ts1 He; cbv beta iota; cbn [okp] ].
+        unfold WSp, Wp in *. rewrite wf_sexpr. exact He. }
+      destruct (cur ts) as [s | s | s | s | k]; try exact Hdflt.
+      destruct k; try exact Hdflt.
+      + (* antwoord *)
+        eapply okp_bind; [ apply IHe | intros e ts1 He; cbv beta iota; cbn [okp] ].
+        unfold WSp, Wp in *. rewrite wf_return. exact He.
+      + (* stel *)
+        cbv zeta. destruct (cur (advance ts)); try exact I.
+        eapply okp_bind; [ apply okp_true | intros u ts2 _; cbv beta iota ].
+        eapply okp_bind; [ apply IHe | intros v ts3 Hv; cbv beta iota; cbn [okp] ].
+        unfold WSp, Wp in *. rewrite wf_let. exact Hv.
+      + reflexivity.
+      + reflexivity.
+      + (* block *)
+        eapply okp_bind; [ apply IHb | intros b ts1 Hb; cbv beta iota; cbn [okp] ].
+        unfold WSp, WBp in *. rewrite wf_sblock. exact Hb.
+    - (* parse_block_statement *)
+      intros ts. rewrite parse_block_statement_S.
+      eapply okp_bind; [ apply okp_true | intros u ts1 _; cbv beta iota ].
+      eapply okp_bind; [ apply IHbi | intros b ts2 Hb; cbv beta iota ].
+      eapply okp_bind; [ apply okp_true | intros u' ts3 _; cbv beta iota; cbn [okp]; exact Hb ].
+    - (* parse_block_items *)
+      intros ts. rewrite parse_block_items_S.
+      destruct (is_fix KEof (cur ts) || is_fix KCloseBrace (cur ts)); [ reflexivity | ].
+      eapply okp_bind; [ apply IHs | intros s ts1 Hs; cbv beta iota ].
+      eapply okp_bind; [ apply IHbi | intros rest ts2 Hr; cbv beta iota; cbn [okp] ].
+      unfold WSp, WBp in *. cbn [forallb]. rewrite Hs, Hr. reflexivity.
+  Qed.
+
+  Lemma inv_all : forall n, inv n.
+  Proof. induction n as [ | n IH]; [ exact inv_zero | exact (inv_step n IH) ]. Qed.
+
+  (* the trees the parser returns are in wf_tree: wf_tree is exactly the parser's image
+     (together with parse_print: every wf tree is returned for its printed form) *)
+  Theorem wf_complete : forall fuel ts b, parse_program pf fuel ts = Ok b -> wf_tree b = true.
+  Proof.
+    induction fuel as [ | fuel IH]; intros ts b H; [ discriminate H | ].
+    rewrite parse_program_S in H.
+    destruct (is_fix KEof (cur ts)); [ injection H as H; subst b; reflexivity | ].
+    destruct (inv_all fuel) as (_ & _ & _ & _ & _ & _ & _ & _ & _ & _ & _ & _ & IHs & _).
+    specialize (IHs ts).
+    destruct (parse_statement pf fuel ts) as [[s ts1] | | | ]; try discriminate H.
+    cbn [bind] in H. cbn [okp] in IHs.
+    destruct (parse_program pf fuel ts1) as [rest | | | ] eqn:E; try discriminate H.
+    cbn [bind] in H. injection H as H. subst b.
+    unfold wf_tree, wf_tree_gen. cbn [forallb].
+    unfold WSp, ftrue in IHs. rewrite IHs. exact (IH ts1 rest E).
+  Qed.
+
+  Theorem wf_complete_expr : forall fuel p ts e ts',
+    parse_expr pf fuel p ts = Ok (e, ts') -> wf_expr (fun _ => true) e = true.
+  Proof.
+    intros fuel p ts e ts' H. destruct (inv_all fuel) as (IHe & _).
+    specialize (IHe p ts). rewrite H in IHe. exact IHe.
+  Qed.
+End Complete.
+
+(** * 11. Examples (by computation) and non-vacuity *)
+
+Section Examples.
+  Let a := EIdent [97%N].
+  Let b := EIdent [98%N].
+  Let c := EIdent [99%N].
+  Let pf0 : text -> option float := fun _ => None.
+
+  (* -(a*b) needs no parentheses: printed as `- a * b ;` *)
+  Example ex_neg_product :
+    print_program sf0 [SExpr (EPrefix OpSubtract (EInfix a OpMultiply b))]
+      = [TFix KMinus; TIdent [97%N]; TFix KStar; TIdent [98%N]; TFix KSemi] /\
+    parse_tokens pf0 [TFix KMinus; TIdent [97%N]; TFix KStar; TIdent [98%N]; TFix KSemi]
+      = Ok [SExpr (EPrefix OpSubtract (EInfix a OpMultiply b))].
+  Proof. split; vm_compute; reflexivity. Qed.
+
+  (* (-a)*b needs them *)
+  Example ex_neg_then_product :
+    print_program sf0 [SExpr (EInfix (EPrefix OpSubtract a) OpMultiply b)]
+      = [TFix KOpenParen; TFix KMinus; TIdent [97%N]; TFix KCloseParen; TFix KStar; TIdent [98%N];
+         TFix KSemi] /\
+    parse_tokens pf0 (print_program sf0 [SExpr (EInfix (EPrefix OpSubtract a) OpMultiply b)])
+      = Ok [SExpr (EInfix (EPrefix OpSubtract a) OpMultiply b)].
+  Proof. split; vm_compute; reflexivity. Qed.
+
+  (* !(a == b) is printed `! a == b` *)
+  Example ex_not_eq :
+    print_program sf0 [SExpr (EPrefix OpNot (EInfix a OpEq b))]
+      = [TFix KBang; TIdent [97%N]; TFix KEq; TIdent [98%N]; TFix KSemi] /\
+    parse_tokens pf0 [TFix KBang; TIdent [97%N]; TFix KEq; TIdent [98%N]; TFix KSemi]
+      = Ok [SExpr (EPrefix OpNot (EInfix a OpEq b))].
+  Proof. split; vm_compute; reflexivity. Qed.
+
+  (* a - (b - c): right nesting at equal rank keeps its parentheses *)
+  Example ex_right_nested :
+    print_program sf0 [SExpr (EInfix a OpSubtract (EInfix b OpSubtract c))]
+      = [TIdent [97%N]; TFix KMinus; TFix KOpenParen; TIdent [98%N]; TFix KMinus; TIdent [99%N];
+         TFix KCloseParen; TFix KSemi] /\
+    parse_tokens pf0 (print_program sf0 [SExpr (EInfix a OpSubtract (EInfix b OpSubtract c))])
+      = Ok [SExpr (EInfix a OpSubtract (EInfix b OpSubtract c))].
+  Proof. split; vm_compute; reflexivity. Qed.
+
+  (* (a = 1) + 2 and a = (b = 1) are in the parser's image *)
+  Example ex_assign_operand :
+    wf_tree [SExpr (EInfix (EAssign a (EInt 1)) OpAdd (EInt 2)); SExpr (EAssign a (EAssign b (EInt 1)))]
+      = true /\
+    print_program sf0 [SExpr (EInfix (EAssign a (EInt 1)) OpAdd (EInt 2))]
+      = [TFix KOpenParen; TIdent [97%N]; TFix KAssign; TIntLit [49%N]; TFix KCloseParen; TFix KPlus;
+         TIntLit [50%N]; TFix KSemi] /\
+    parse_tokens pf0
+      (print_program sf0 [SExpr (EInfix (EAssign a (EInt 1)) OpAdd (EInt 2));
+                          SExpr (EAssign a (EAssign b (EInt 1)))])
+      = Ok [SExpr (EInfix (EAssign a (EInt 1)) OpAdd (EInt 2)); SExpr (EAssign a (EAssign b (EInt 1)))].
+  Proof. repeat split; vm_compute; reflexivity. Qed.
+
+  (* a statement-level tree with every construct: the hypotheses of parse_print are satisfiable *)
+  Definition big_example : block :=
+    [ SLet [120%N] (ECall (EFunction [] [[97%N]; [98%N]] [SReturn (EInfix a OpAdd b)])
+                      [EInt 1; EArray [a; b; EArray []]; EIndex (EString [34%N; 92%N; 10%N; 9%N; 65%N]) (EInt 0)]);
+      SExpr (EIf (EInfix (EPrefix OpNot a) OpAnd (EInfix b OpLte (EPrefix OpSubtract (EInt 3))))
+               [SExpr (EIf b [] None); SBlock [SBreak; SContinue]]
+               (Some [SExpr (EIf c [SExpr (EAssign (EIndex a (EInt 0)) (EBool true))] None)]));
+      SExpr (EWhile (EBool false) [SExpr (EAssign a (EInfix a OpModulo (EInfix b OpDivide c)))]);
+      SExpr (EFunction [102%N] [] []);
+      SReturn (EInfix (EInfix a OpSubtract b) OpSubtract (EInfix (EInfix a OpMultiply b) OpOr c)) ].
+
+  Example ex_big : wf_tree_nofloat big_example = true /\ wf_tree big_example = true /\
+    parse_tokens pf0 (print_program sf0 big_example) = Ok big_example.
+  Proof. repeat split; vm_compute; reflexivity. Qed.
+
+  (* trees outside the image are rejected by wf_tree: chained calls, negative literals, a function
+     literal as left operand, OpNegate / OpAssign as operators *)
+  Example ex_not_wf :
+    wf_tree [SExpr (ECall (ECall a []) [])] = false /\
+    wf_tree [SExpr (EInt (-1))] = false /\
+    wf_tree [SExpr (EInfix (EFunction [] [] []) OpAdd a)] = false /\
+    wf_tree [SExpr (EPrefix OpNegate a)] = false /\
+    wf_tree [SExpr (EInfix a OpAssign b)] = false /\
+    wf_tree [SExpr (EIndex (EIndex a b) c)] = false /\
+    wf_tree [SExpr (EAssign (EInt 1) a)] = false.
+  Proof. repeat split; vm_compute; reflexivity. Qed.
+
+  (* with a float literal, under a (here: constant) oracle that reads the printed text back *)
+  Example ex_float :
+    let x := 1.5%float in
+    let t := [SExpr (EInfix (EFloat x) OpAdd a)] in
+    wf_tree t = true /\
+    parse_tokens (fun _ => Some x) (print_program (fun _ => [49%N; 46%N; 53%N]) t) = Ok t.
+  Proof. split; vm_compute; reflexivity. Qed.
+End Examples.
+
+Print Assumptions decode_quote.
+Print Assumptions parse_digits_show_N.
+Print Assumptions parse_print_expr.
+Print Assumptions parse_print_gen.
+Print Assumptions parse_print.
+Print Assumptions parse_print_all_fuel.
+Print Assumptions parse_print_nofloat.
+Print Assumptions parse_tokens_print_gen.
+Print Assumptions precedence_documented.
+Print Assumptions left_assoc.
+Print Assumptions higher_binds_tighter.
+Print Assumptions prefix_quirk.
+Print Assumptions op_assign_desugars.
+Print Assumptions wf_complete.
+Print Assumptions wf_complete_expr.
